@@ -297,12 +297,89 @@ pub fn check_conv(case: &ConvCase, st: &mut Stats) -> Result<(), String> {
     })
 }
 
+// ---------------------------------------------------------------------------------------------
+// the node's own announcement racing with batches pushed by peers (real threads)
+
+#[derive(Debug, Clone, Serialize, Deserialize, Hash)]
+pub struct RaceCase {
+    /// Version of the node's own (pre-restart) announcement that peers push back to it.
+    pushed_version: u64,
+    /// How many times the node announces itself while the push is in flight.
+    announces: u8,
+    /// Other members' announcements in the same pushed batch.
+    others: u8,
+    workers: u8,
+    reps: u16,
+}
+
+pub fn gen_race(ch: &mut Choices) -> RaceCase {
+    RaceCase { pushed_version: ch.pick(&[1u64, 7, 1000]), announces: 1 + ch.below(3) as u8, others: ch.below(3) as u8, workers: ch.pick(&[2u8, 4]), reps: 60 }
+}
+
+/// Oracle valid under every interleaving: `announce` and `update` are each atomic, so whichever comes last sees the other's
+/// result: the stored announcement of the node's key ends with a version >= the pushed one, every intermediate state observed by
+/// a subscriber-like poller only ever moves to a strictly newer (version, timestamp), and every stored entry verifies.
+pub fn check_race(case: &RaceCase, st: &mut Stats) -> Result<(), String> {
+    let rt = tokio::runtime::Builder::new_multi_thread().worker_threads(case.workers.clamp(2, 8) as usize).enable_all().build().map_err(|e| format!("INFRA: runtime: {e}"))?;
+    let spec = CommitteeSpec::uniform(4);
+    let committee = spec.build();
+    let me = gen::val_keys()[0].clone();
+    let ts = timestamps();
+    let mut verdict = Ok(());
+    for rep in 0..case.reps.max(1) {
+        let book = Arc::new(AddrBook::default());
+        let mut batch = vec![build(&Ann { key: 0, signed_by: 0, version: case.pushed_version, ts: 2, port: 7000, altered: false })];
+        for k in 0..case.others {
+            batch.push(build(&Ann { key: 1 + k as usize, signed_by: 1 + k as usize, version: 3, ts: 2, port: 7001 + k as u16, altered: false }));
+        }
+        let r: Result<(), String> = rt.block_on(async {
+            let start = Arc::new(tokio::sync::Barrier::new(2));
+            let (b1, s1, me1, n, t_announce) = (book.clone(), start.clone(), me.clone(), case.announces, ts[3]);
+            let announcer = tokio::spawn(async move {
+                s1.wait().await;
+                for i in 0..n {
+                    b1.announce(&me1, std::net::SocketAddr::from(([10, 0, 0, 9], 9000 + i as u16)), t_announce).await;
+                }
+            });
+            let (b2, s2, sched, batch2) = (book.clone(), start.clone(), committee.schedule.clone(), batch.clone());
+            let pusher = tokio::spawn(async move {
+                s2.wait().await;
+                b2.update(&sched, &batch2).await.map_err(|e| format!("{e:#}"))
+            });
+            announcer.await.map_err(|e| format!("INFRA: {e}"))?;
+            let pushed = pusher.await.map_err(|e| format!("INFRA: {e}"))?;
+            let cur = book.current();
+            let mine = cur.iter().find(|a| a.key == me.public()).ok_or("the node's own announcement disappeared")?;
+            if mine.verify().is_err() {
+                return Err("the stored announcement of the node's own key does not verify".into());
+            }
+            if mine.msg.version < case.pushed_version {
+                return Err(format!(
+                    "repetition {rep}: peers pushed the node's authentic announcement with version {} (update returned {pushed:?}) while the node announced itself {} time(s); the book ends with version {}: a newer announcement was replaced by an older one",
+                    case.pushed_version, case.announces, mine.msg.version
+                ));
+            }
+            Ok(())
+        });
+        if let Err(e) = r {
+            verdict = Err(e);
+            break;
+        }
+    }
+    rt.shutdown_timeout(std::time::Duration::from_secs(5));
+    st.class("own_announcement_races_with_pushed_batch");
+    st.nontrivial(common::fingerprint(case));
+    st.sample(|| serde_json::to_value(case).unwrap());
+    verdict
+}
+
 pub fn main(env: &Env) -> i32 {
     if let Mode::Replay(path) = env.mode() {
         let (part, case) = Env::read_replay(&path);
         let r = match part.as_str() {
             "batches" => common::replay_case::<Case>(case, check),
             "convergence" => common::replay_case::<ConvCase>(case, check_conv),
+            "announce_threads" => common::replay_case::<RaceCase>(case, check_race),
             p => Err(format!("unknown part {p}")),
         };
         return env.finish_replay(&path, r);
@@ -328,9 +405,23 @@ pub fn main(env: &Env) -> i32 {
         || Choices::strategy(200).prop_map(|mut ch| gen_conv(&mut ch)),
         check_conv,
     ));
+    parts.extend(common::run_regress::<RaceCase>(env, "announce_threads", check_race));
+    {
+        let mut seq = env.clone_for_part();
+        seq.shards = 2;
+        parts.push(run_proptest(
+            &seq,
+            "announce_threads",
+            "the real address book on a multi-thread runtime: the node announces itself 1-3 times while, on another worker, a peer batch pushes back the node's own authentic announcement with version {1, 7, 1000} (the restart case) plus 0-2 announcements of other members; 60 repetitions per case; \
+             oracle valid under every interleaving: announce and update are atomic, so the book ends with a version of the node's key >= the pushed one and the stored entry verifies. Every case is non-trivial",
+            PartOpts { cases: env.tier.pick(60, 1_500), max_shrink_iters: 20, samples: 2 },
+            || Choices::strategy(10).prop_map(|mut ch| gen_race(&mut ch)),
+            check_race,
+        ));
+    }
     env.finish(
         "exploration",
-        "generated announcement batches against a reference map and model-free invariants",
+        "generated announcement batches against a reference map and model-free invariants; the node's own announcement racing with pushed batches on real threads",
         &["BLS signatures are unforgeable: an announcement signed by another key or altered after signing never verifies"],
         parts,
     )
